@@ -3,6 +3,7 @@ import DivanModel.Driver.C11
 import DivanModel.Driver.C10
 import DivanModel.Driver.C18
 import DivanModel.Driver.C16
+import DivanModel.Driver.Reg
 /-! Line-protocol driver. One request per line: `verb args…<TAB>implementation observation`.
     One answer per line: `model observation<TAB>spec verdict on the implementation's observation<TAB>branch tag`. -/
 open Driver
@@ -13,6 +14,7 @@ def dispatch (verb : String) (args : List String) (obs : String) : Option Reply 
   | "tally" | "tallymt" | "prof" => C10.handle verb args obs
   | "fd" | "f64" | "bytes" | "thr" => C18.handle verb args obs
   | "natcmp" | "natcmp3" | "argcmp" | "argsort" => C16.handle verb args obs
+  | "reg" => Reg.handle args obs
   | _ => none
 
 def answer (line : String) : String :=
